@@ -8,6 +8,12 @@ import facts
 from runner import Check
 
 PROPS = {
+    "C05": ("rules_c05", "other",
+            "Decided (necessary structural condition only): the crate-local sampling call graph is acyclic; every natural loop on a "
+            "sampling path has a non-panic exit whose condition depends, by def-use inside the loop, on a fresh RNG draw made in the "
+            "loop or on a loop-carried recurrence/iterator; the three documented escape hatches (BINV restart, Zeta infinite-proposal "
+            "return, Poisson MAX_LAMBDA cap) are present and placed where they work. Not decided: how many iterations or RNG words "
+            "(acceptance rates, data-bounded recurrences such as BTPE 5.1 / H2PE 4.1), CPU time."),
     "C15": ("rules_c15", "other",
             "Decided: structural symmetry of writer and reader for every serde-enabled type: Serialize/Deserialize twins, both "
             "derive-generated; no serde attribute other than matching bound(serialize)/bound(deserialize) pairs on any item, field or "
